@@ -1613,3 +1613,59 @@ func (c *Ctx) floatFieldSources(v ssa.Value, depth int) []string {
 	sort.Strings(names)
 	return names
 }
+
+func init() {
+	p := Properties["C10"]
+	p.Rules = append(p.Rules, Rule{"C10/loader-never-nil", ruleC10LoaderNeverNil})
+}
+
+// The Loader is called through a field of the options. Resolve makes that field non-nil before it resolves anything:
+// a default loader is stored under the test "the field is nil" - of the field itself, not of the options pointer
+// (non-nil options without a Loader are the common case) - and that happens before the document resolver is called.
+func ruleC10LoaderNeverNil(c *Ctx) {
+	const rule = "C10/loader-never-nil"
+	entry := c.entry(rule, "(*Schema).Resolve")
+	m := c.resolverModel(rule)
+	if entry == nil || m == nil {
+		return
+	}
+	n := 0
+	c.eachFam(entry, func(i ssa.Instruction) {
+		st, ok := i.(*ssa.Store)
+		if !ok {
+			return
+		}
+		fa, ok := st.Addr.(*ssa.FieldAddr)
+		if !ok || c.fieldName(fa.X.Type(), fa.Field) != "ResolveOptions.Loader" {
+			return
+		}
+		n++
+		byField := false
+		var others []string
+		for _, g := range guardsOf(st) {
+			x, k, equal, ok := eqConst(g)
+			if !ok || !k.IsNil() {
+				continue
+			}
+			if ld, isLd := x.(*ssa.UnOp); isLd && ld.Op == token.MUL {
+				if fa2, isFA := ld.X.(*ssa.FieldAddr); isFA && c.fieldName(fa2.X.Type(), fa2.Field) == "ResolveOptions.Loader" && equal {
+					byField = true
+					continue
+				}
+			}
+			others = append(others, c.pos(g.At))
+		}
+		c.R.Check(byField && len(others) == 0, rule, fmt.Sprintf("default-loader#%d:when-the-field-is-nil", n), c.pos(st), "the default loader is installed exactly when the Loader field is nil",
+			fmt.Sprintf("the default loader is installed under a test other than \"the Loader field is nil\" (field test present: %v; other nil tests at %v): options that are given but have no Loader leave the field nil, and the first remote reference calls a nil function", byField, others))
+		before := false
+		c.eachFam(entry, func(j ssa.Instruction) {
+			if call, ok := j.(*ssa.Call); ok && call.Call.StaticCallee() == m.docFn {
+				if core.ReachableFromInstr(st, call) && !core.ReachableFromInstr(call, st) {
+					before = true
+				}
+			}
+		})
+		c.R.Check(before, rule, fmt.Sprintf("default-loader#%d:before-resolution", n), c.pos(st), "the default is in place before the document resolver runs", "the default loader is installed after (or not before) the call of the document resolver")
+	})
+	c.R.Floor(rule, "places where Resolve installs a default Loader", n, 1)
+}
